@@ -5,7 +5,7 @@
    when the defaults are known. *)
 From Coq Require Import String Ascii List Arith NArith Bool Lia.
 From J5V.lib Require Import Outcome Corr.
-From J5V.model Require Import Pipeline PipelineEntity PipelineList PipelineCorr.
+From J5V.model Require Import Pipeline PipelineCompile PipelineEntity PipelineList PipelineCorr.
 From J5V.proofs Require Import PipelineProofs PipelineChainProofs PipelineEntityProofs.
 Import ListNotations.
 Local Open Scope N_scope.
@@ -205,6 +205,23 @@ Proof.
   unfold run_chain_list. rewrite (with_lists_id rt (im_schemas im) _ ms ks C (lists_ok_total rt _ ms Hd Hlr)).
   exists es, ks. repeat (split; [assumption|]).
   rewrite Forall_forall in Hlr |- *. intros m Hm. exact (method_list_fields_total rt _ m Hd (Hlr m Hm)).
+Qed.
+
+(* the composed chain theorem with list requests: for a valid declared package and a rules table with known
+   defaults, building the list requests changes nothing and every list method gets its list fields *)
+Theorem chain_full_lists (to_snake : str -> str) (P : decl_package) rt :
+  valid_package to_snake P -> defaults_known rt ->
+  let r0 := run_chain current_config (PipelineCompile.compile_image to_snake P) in
+  let g := im_schemas (PipelineCompile.compile_image to_snake P) in
+  with_lists rt g r0 = r0
+  /\ Forall (fun m => exists o, method_list_fields rt g m = Ok o) (declared_clients to_snake P).
+Proof.
+  intros Hv Hd. cbv zeta.
+  destruct (chain_full to_snake P Hv) as (ks & _ & C & _).
+  pose proof (methods_from_source_list_roots _ _ _ _ (methods_declared to_snake P Hv)) as Hlr.
+  split.
+  - exact (with_lists_id rt _ _ _ ks C (lists_ok_total rt _ _ Hd Hlr)).
+  - rewrite Forall_forall in Hlr |- *. intros m Hm. exact (method_list_fields_total rt _ m Hd (Hlr m Hm)).
 Qed.
 
 (* ---------- the hypothesis is needed: an unknown default filter fails the client stage ---------------------- *)
